@@ -2,7 +2,7 @@
 from .. import tables
 from ..callgraph import norm
 from ..cfg import Cfg, reach
-from ..common import body_by_name, callee_names, family, last_named_field, logic_body
+from ..common import body_by_name, callee_names, callgraph, family, last_named_field, logic_body
 from ..facts import callee, op_local, op_place
 from ..flow import Flow, identity_through
 from ..loopan import analyse, fn_name, report_violations
@@ -219,6 +219,28 @@ def single_writer(rep, prog, cfg, res):
         for bb, t in b.calls():
             if any(n in CONN_OPS for n in callee_names(t)):
                 users.add(fn_name(prog, b))
+    # a private helper is part of its callers: allowed when it is not exported and every caller is allowed
+    cg = callgraph(prog)
+    by_root = {}
+    for x in prog.bodies.values():
+        by_root.setdefault(fn_name(prog, x), []).append(x)
+    changed = True
+    while changed:
+        changed = False
+        for u in sorted(users - allowed):
+            members = by_root.get(u, [])
+            rootb = [x for x in members if x.id == x.root]
+            if not rootb or rootb[0].raw.get("pub") or rootb[0].raw.get("exported"):
+                continue
+            callers = set()
+            for x in members:
+                for c in cg.callers.get(x.id, ()):
+                    cn = fn_name(prog, prog.bodies[c])
+                    if cn != u:
+                        callers.add(cn)
+            if callers and callers <= allowed:
+                allowed.add(u)
+                changed = True
     for u in sorted(users):
         rep.check(u in allowed, rule, "%s/%s" % (cfg, u), u,
                   "%s performs connection operations outside the handshake and the connection loop: two writers/readers would interleave requests and steal replies" % u)
